@@ -8,7 +8,6 @@ from ..callgraph import get_callgraph
 from ..corpus import (
     Corpus,
     FunctionInfo,
-    Unsupported,
     ancestors,
     arg_or_kw,
     dotted,
@@ -17,7 +16,6 @@ from ..corpus import (
     short,
     splice,
     unparse,
-    walk_local,
 )
 from ..flow import get_cfg
 from ..mutant import Mutant
@@ -887,7 +885,6 @@ def r2_line_kinds(corpus: Corpus, rep: Report, tier: str):
     rep.rule(R2, "line arithmetic is unit/base consistent: no char index in line maths; each nested-render call site passes the line its convention (AFTER/ON/START) needs; no L1+OFF into a .line sink")
     K = _kinds(corpus)
     # ---- (a) CH never meets a line quantity
-    n_arith = 0
     used: dict[str, int] = {}
 
     def uniq(k: str) -> str:
@@ -906,7 +903,6 @@ def r2_line_kinds(corpus: Corpus, rep: Report, tier: str):
                     chside = n.left if CH in lk else n.right
                     rep.violation(R2, k, fi.module.site(n), f"`{short(n, 60)}` adds the character index `{short(chside, 40)}` to a line quantity")
                 else:
-                    n_arith += 1
                     rep.ok(R2, k, fi.module.site(n), f"{sorted(lk) or '?'} {'+' if isinstance(n.op, ast.Add) else '-'} {sorted(rk) or '?'}")
             elif isinstance(n, ast.AugAssign) and isinstance(n.op, (ast.Add, ast.Sub)) and isinstance(n.target, ast.Name):
                 tk = K.name_kinds(fi, n.target.id, skip=n)
@@ -982,7 +978,6 @@ def r2_line_kinds(corpus: Corpus, rep: Report, tier: str):
         except _Unknown as e:
             rep.error(R2, f"render_restructuredtext padding not understood ({e})")
     # ---- (c) .line sinks never take L1 + OFF without the +1
-    n_sink = 0
     for fi in r2_funcs:
         for n in sorted((x for x in fi.local_nodes() if isinstance(x, (ast.Assign, ast.Call))), key=lambda x: (x.lineno, x.col_offset)):
             exprs: list[tuple[ast.expr, str]] = []
@@ -1005,7 +1000,6 @@ def r2_line_kinds(corpus: Corpus, rep: Report, tier: str):
                 kinds = [kk for _, kk, _ in terms]
                 if not (set(kinds) & LINE):
                     continue
-                n_sink += 1
                 k = uniq(f"{fi.fq}|line-sink|{text}")
                 if kinds.count(L1) == 1 and OFF in kinds and const != 1 and all(s > 0 for s, _, _ in terms):
                     rep.violation(R2, k, fi.module.site(e), f"`{short(e, 50)}` = L1(directive line) + content offset {const:+d} is the number of lines BEFORE the target line; as a node/warning line it is one too low (docutils: lineno = 1 + line_offset)")
@@ -1075,6 +1069,7 @@ def r3_shift_once(corpus: Corpus, rep: Report, tier: str):
     for fi, want, desc in ((rt, "1", "+1 (0-based -> 1-based)"), (nrt, None, "+lineno (absolute position of the nested text)")):
         stores = _map_stores(fi)
         shifting = []
+        n_err = len(rep.errors)
         for st, tgt in stores:
             if not (isinstance(st, ast.Assign) and isinstance(tgt, ast.Attribute) and isinstance(tgt.value, ast.Name)):
                 rep.error(R3, f"{fi.module.site(st)}: map store `{short(st, 60)}` in {fi.name} not understood")
@@ -1091,6 +1086,8 @@ def r3_shift_once(corpus: Corpus, rep: Report, tier: str):
                     rep.error(R3, f"{fi.module.site(st)}: `{short(st, 60)}` is neither the two-element shift `[t.map[0] + k, t.map[1] + k]` nor the propagation to inline children; idiom not understood")
                 continue
             shifting.append((st, tok, amt))
+        if len(rep.errors) > n_err:
+            continue  # an idiom was not understood: already an ANALYSIS-ERROR, never a violation
         if len(shifting) != 1:
             rep.violation(R3, f"{fi.fq}|number of map shifts", fi.site(), f"{fi.name} contains {len(shifting)} map-shifting stores, expected exactly one ({desc})")
             continue
